@@ -352,6 +352,11 @@ silent("C13", "dimension test spelled on the grid attribute",
        ("sub", "cubic.py", "            alt_volume = self._calculate_alternative_volume(shape)\n\n            def _fourier2",
         "            alt_volume = self._calculate_alternative_volume(shape)\n            dim = len(shape)\n\n            def _fourier2"))
 
+silent("C13", "three-dimensional test spelled `!= 2`",
+       ("sub", "cubic.py", "            if len(shape) == 3:\n                weight_z = _fourier2(shape, 2)\n", "            if len(shape) != 2:\n                weight_z = _fourier2(shape, 2)\n"))
+silent("C04", "precondition spelled with the operands exchanged",
+       ("sub", "rtransform.py", "        if oned_grid.domain[0] < self.domain[0] or oned_grid.domain[1] > self.domain[1]:\n",
+        "        if self.domain[0] > oned_grid.domain[0] or self.domain[1] < oned_grid.domain[1]:\n"))
 # ------------------------------------------------------------------------------------------ C14
 fire("C14", "reintroduce: 1D orders through the removed alias np.int", "R2.order-rows",
      ("sub", "utils.py", "        elif dim == 1:\n            orders.append([order])\n", "        elif dim == 1:\n            return np.arange(0, order + 1, dtype=np.int)\n"))
